@@ -188,7 +188,13 @@ void harness(void) {
 #define CAP() (((struct cbor_indefinite_string_data*)c->data)->chunk_capacity)
 #define SLOT(i) (cbor_string_chunks_handle(c)[i])
 #endif
+#if KIND <= 2
+#define TABLE() ((void*)c->data)
+#else
+#define TABLE() ((void*)((struct cbor_indefinite_string_data*)c->data)->chunks)
+#endif
   size_t size0 = SIZE(), cap0 = CAP(), live0 = a_live, rc_new0 = cbor_refcount(e[4]), rc_c0 = cbor_refcount(c);
+  void* table0 = TABLE();
   cbor_item_t* slots0[4];
   for (size_t i = 0; i < 4; i++) if (i < size0) slots0[i] = SLOT(i);
   for (int stop = 0; stop < 2; stop++) {
@@ -206,6 +212,8 @@ void harness(void) {
     VF_ASSERT(refused == (size0 == cap0), "a reallocation is requested exactly when the container is full");
     if (refused) {
       VF_ASSERT(!ok, "refused growth is reported as false");
+      VF_ASSERT(TABLE() == table0, "the container still owns its element table after a refused growth");
+      __CPROVER_assume(TABLE() == table0); /* recorded above; do not walk a lost table */
       VF_ASSERT(SIZE() == size0 && CAP() == cap0, "size and capacity unchanged after a refused growth");
       VF_ASSERT(cbor_refcount(e[4]) == rc_new0 && cbor_refcount(c) == rc_c0, "reference counts unchanged after a refused growth");
       for (size_t i = 0; i < 4; i++) if (i < size0) VF_ASSERT(SLOT(i) == slots0[i], "contents unchanged after a refused growth");
